@@ -11,6 +11,7 @@ let () =
    | "trans" -> Trans.run st b
    | "opscheck" -> Opscheck.run st b
    | "flowcheck" -> Flowcheck.run st b
+   | "opsmodel" -> Opsmodel.run st b
    | _ -> prerr_endline ("unknown command " ^ cmd); exit 2);
   let oc = open_out Sys.argv.(3) in
   Buffer.output_buffer oc b; close_out oc
